@@ -27,6 +27,11 @@ RowsOK(e, S, R) ==
          IN SameBag(b, a)
 Names(e) ==
   IF e.skipped # "" THEN {}
+  ELSE IF e.mustrefuse THEN
+       \* a change that cannot be carried out on the populated table (SqliteModel.Inadmissible), through the CLI: refused, and schema and rows as before
+       LET S == Norm(e.from) IN
+       (IF e.err # "" THEN {} ELSE {"InadmissibleChangeAccepted"})
+       \cup (IF DOMAIN e.after = DOMAIN e.from /\ Norm(e.after) = S /\ RowsOK(e, S, S) THEN {} ELSE {"RefusalNotClean"})
   ELSE LET S == Norm(e.from)  R == Norm(e.to) IN
        (IF e.err = "" THEN {} ELSE {"PlanOrExecError"})
        \cup (IF e.err # "" \/ (DOMAIN e.after = DOMAIN e.to /\ Norm(e.after) = R) THEN {} ELSE {"NotConverged"})
